@@ -35,7 +35,8 @@ PROBES = ["crash_points_enumerated", "crash_inside_copy", "crash_inside_record_w
           "preexisting_backup_survived", "restore_exact_checked", "restore_after_delete", "restore_after_rmdir",
           "restore_tasks_nonempty_writeset", "restore_tasks_checked", "remodel_twice_checked",
           "remodel_modified_between", "second_backup_refused", "isolation_checked", "io_error_injected", "dispatch_reads_backup_checked", "same_manager_retry_after_io_error",
-          "history_restore_killed", "history_remodel_killed", "size_preserving_edit", "root_given_through_symlink"]
+          "history_restore_killed", "history_remodel_killed", "size_preserving_edit", "root_given_through_symlink",
+          "two_backups_used_in_one_process"]
 RULE = ("Each run is one generated scenario (data tree of 2-8 files in 1-3 directory levels, BIDS-like names with and "
         "without a task entity in both spellings, sizes 0 B-200 kB, optional pre-existing backup, file selection as "
         "run_remodel_backup does it).  Runs with index%3==0 are crash scenarios: every file-system step of one backup "
@@ -135,6 +136,10 @@ def _gen_tree(g):
         files.append({"path": "sub-01/data/sub-01_task-go_run-9_events.tsv", "kind": "events", "seed": g.randrange(10 ** 6), "size": 150})
         if g.chance(0.5):
             files.append({"path": "data/shm/loc_events.tsv", "kind": "events", "seed": g.randrange(10 ** 6), "size": 80})
+    if g.chance(0.2):
+        # names in decomposed unicode (e + combining acute): a path is a sequence of bytes, not a normal form
+        files.append({"path": "sub-01/re\u0301sume\u0301/sub-01_task-go_cafe\u0301_events.tsv", "kind": "events",
+                      "seed": g.randrange(10 ** 6), "size": 130})
     if g.chance(0.3):
         # same basename in two directories: the backup must keep them apart
         files.append({"path": "extra/a/dup_events.tsv", "kind": "events", "seed": g.randrange(10 ** 6), "size": 90})
@@ -219,6 +224,14 @@ def generate(run_index, seed, tier):
             ops.append({"op": "backup", "name": g.pick(names), "via": g.pick(["cli", "api"]), "sel": _gen_selection(g)})
         else:
             ops.append({"op": "reopen"})
+    if g.chance(0.12):
+        # two backups of different content, then a script that works from both of them in one process
+        ev = [q for q in paths if q.endswith("_events.tsv")]
+        if ev:
+            ops[1:1] = [{"op": "modify", "path": g.pick(ev), "how": "append"},
+                        {"op": "modify", "path": g.pick(ev), "how": "append"},
+                        {"op": "backup", "name": names[1], "via": "api", "sel": {}},
+                        {"op": "dispatch", "model": g.randrange(len(MODELS)), "name": names[0]}]
     # an interrupted restore / remodel run is one more thing that "was done to the data files in between"
     for o in ops[1:]:
         if o["op"] in ("restore", "remodel") and g.chance(0.2):
@@ -347,6 +360,10 @@ class _World:
     def run_proc(self, name, fn, faults=()):
         sim = self.sim
         self.fs.write_set = set()
+        from sim import runner as _runner
+        ps = _runner._PSTATE.get("ps")
+        if ps is not None:
+            ps.restore()          # a CLI invocation / script is a new OS process: nothing kept at module or class level survives
         p = sim.spawn(name, fn, op_dur=0.0005)
         for f in faults:
             ff = dict(f)
@@ -854,9 +871,28 @@ def _do_dispatch(world, o, oi):
     model = copy.deepcopy(MODELS[o["model"]])
     out = {}
 
+    other = [n for n in sorted(world.model) if n != name and world.model[n] and all(t in world.model[n] for t in targets)]
+    want_other = {}
+    if other:
+        try:
+            for t in targets:
+                df = pd.read_csv(io.BytesIO(world.model[other[0]][t]), sep="\t", header=0, keep_default_na=False, na_values=",null")
+                want_other[t] = Dispatcher(copy.deepcopy(model), data_root=None, backup_name=None).run_operations(df).to_csv(sep="\t", index=False)
+        except Exception:  # noqa - the model does not fit what that backup holds (a rewritten file): leave it out
+            other = []
+
+    if other:
+        world.probe("two_backups_used_in_one_process")
+
     def fn():
+        res = {}
+        if other:
+            # the same script first works from another backup of the same tree
+            d0 = Dispatcher(copy.deepcopy(model), data_root=world.root, backup_name=other[0])
+            res["other"] = {t: d0.run_operations(os.path.join(world.root, t)).to_csv(sep="\t", index=False) for t in targets}
         d = Dispatcher(model, data_root=world.root, backup_name=name)
-        return {t: d.run_operations(os.path.join(world.root, t)).to_csv(sep="\t", index=False) for t in targets}
+        res.update({t: d.run_operations(os.path.join(world.root, t)).to_csv(sep="\t", index=False) for t in targets})
+        return res
     # expected: the same operations applied to the backed-up bytes
     want = {}
     for t in targets:
@@ -872,6 +908,12 @@ def _do_dispatch(world, o, oi):
                    % (type(p.exc).__name__, str(p.exc)[:200]), "dispatch-raised-%s" % type(p.exc).__name__)
         return True
     world.probe("dispatch_reads_backup_checked")
+    if other:
+        for t in targets:
+            if p.result["other"][t] != want_other[t]:
+                world.viol("remodel-idempotent", "Dispatcher(backup %r).run_operations(%s) differs from the operations applied to that "
+                           "backup's copy" % (other[0], t), "dispatcher-does-not-start-from-backup")
+                return True
     for t in targets:
         if p.result[t] != want[t]:
             world.viol("remodel-idempotent", "Dispatcher.run_operations(%s) after the data file was modified gives a result that "
